@@ -19,7 +19,7 @@ RULE = ('complete products: all key columns of length 1..4 over {10,20,30} and o
         'keeping their values; non-trivial = duplicates, unsorted columns, misses, approximate hits between/above keys, '
         'out-of-area indices, columns >= 26')
 ASSUMPTIONS = ['approximate modes are judged on non-decreasing key columns only', 'XMATCH match_mode -1/1, MATCH type -1, case-differing '
-               'text keys, horizontal MATCH, INDEX with 0 (whole row/column) and multi-column COLUMN areas are explored, not judged',
+               'text keys, horizontal MATCH, INDEX with 0 (whole row/column) is explored, not judged; of COLUMN over an area of several columns only the formula\'s own cell (first column number) and the integrity of every other non-blank cell are judged',
                'a negative INDEX number may be any error value; beyond the area must be #REF!; a missing key must be #N/A']
 
 NA = R.Err('NA')
@@ -542,6 +542,55 @@ def run_column_own(cases, stats):
     return vio
 
 
+def run_column_area(cases, stats):
+    """=COLUMN(area of several columns) placed in every column p of row 3: the formula's own cell holds the number of the
+    first column of the area, and no cell with content of its own (row 1, occupied right neighbours) changes.  What the
+    library writes into blank right neighbours (it spills the further column numbers there) is not judged."""
+    vio = []
+    for i, c in enumerate(cases):
+        p, f, w, mask, plus = c['p'], c['f'], c['w'], c['mask'], c['plus']
+        cells = {f'{get_column_letter(k)}1': 100 + k for k in range(1, 13)}
+        cells.update({f'{get_column_letter(k)}2': 200 + k for k in range(1, 5)})
+        area = f'{get_column_letter(f)}1:{get_column_letter(f + w - 1)}2'
+        own = f'{get_column_letter(p)}3'
+        cells[own] = f'=COLUMN({area})' + ('+10' if plus else '')
+        want = {a: v for a, v in cells.items() if a != own}
+        want[own] = f + (10 if plus else 0)
+        for k in range(2):
+            if mask >> k & 1:
+                a = f'{get_column_letter(p + 1 + k)}3'
+                cells[a] = want[a] = 700 + k
+        for entry in (None, ('S', get_column_letter(p), '3')):
+            kind, text = D.translate([('S', cells)], entry=entry)
+            stats['transitions'] += 1
+            cls = None
+            if kind == 'TEXT':
+                k2, cls, _ = D.load_class(text)
+                if k2 != 'CLASS':
+                    kind, text = k2, cls
+            if kind != 'TEXT':
+                vio.append({'i': i, 'desc': {'func': 'COLUMN', 'form': 'area-of-columns', 'outcome': kind}, 'expected': 'translates',
+                            'observed': str(text)[:200]})
+                break
+            ex = D.new_executor(cls)
+            bad = False
+            for a, v in (want.items() if entry is None else [(own, want[own])]):
+                col, row = D.split_a1(a)
+                o = D.eval_cell(ex, 'S', col, row)
+                stats['validated'] += 1
+                stats['nontrivial'] += 1
+                if not R.same_value(v, o)[0]:
+                    vio.append({'i': i, 'desc': {'func': 'COLUMN', 'form': 'area-of-columns', 'cell': 'own' if a == own else
+                                                 ('right-neighbour' if row == '3' else 'elsewhere'), 'entry': entry is not None,
+                                                 'outcome': 'VALUE_MISMATCH' if o[0] == 'VALUE' else o[0]},
+                                'expected': v, 'observed': [a, S.obs(o), cells[own]]})
+                    bad = True
+                    break
+            if bad:
+                break
+    return vio
+
+
 # ---------------------------------------------------------------------------------------------
 
 def plan(tier, seed):
@@ -589,6 +638,8 @@ def plan(tier, seed):
         {'name': 'address-override', 'cases': address_cases(), 'runner': 'run_address', 'chunk': 2},
         {'name': 'address-literal-constant', 'cases': address_lit_cases(), 'runner': 'run_address_lit', 'chunk': 100},
         {'name': 'column-reference', 'cases': column_cases(), 'runner': 'run_column', 'chunk': 160},
+        {'name': 'column-area', 'cases': [{'p': p_, 'f': f_, 'w': w_, 'mask': m_, 'plus': pl_} for p_ in range(1, 9) for f_ in range(1, 5)
+                                          for w_ in (2, 3) for m_ in range(4) for pl_ in (0, 1)], 'runner': 'run_column_area', 'chunk': 16},
         {'name': 'column-own', 'cases': iter([{}, {'entry': ['S', 'AA', '3']}, {'entry': ['S', 'B', '2']}]), 'runner': 'run_column_own',
          'chunk': 1},
     ]
